@@ -148,7 +148,7 @@ def sub_recipe(draw, max_budget=60, opts=None, min_level=4):
         r["locals"] = rinfo["locals"]
         guard = f6_guard_loads(body_items, list(rinfo["locals"]))
         nguards += len(guard)
-        r["body"] = ["seq", init_stores(rinfo["locals"]) + guard + body_items]
+        r["body"] = ["seq", ([] if opts.get("no_init") else init_stores(rinfo["locals"]) + guard) + body_items]
     # main
     g.budget = max(g.budget, 8)
     stmts = [g.S(cxm.sub()) for _ in range(g.i(1, 3))]
@@ -181,7 +181,7 @@ def sub_recipe(draw, max_budget=60, opts=None, min_level=4):
                         used_in_routines.add(a[1])
     guard = f6_guard_loads(stmts + [final], [n for n in g.vars if n not in used_in_routines])
     nguards += len(guard)
-    recipe = {"mode": mode, "level": max(level, 4), "vars": g.vars, "routines": g.routines, "main": ["seq", init_stores(g.vars) + guard + stmts + [final]]}
+    recipe = {"mode": mode, "level": max(level, 4), "vars": g.vars, "routines": g.routines, "main": ["seq", ([] if opts.get("no_init") else init_stores(g.vars) + guard) + stmts + [final]]}
     if nguards:
         recipe["f6_guards"] = nguards
     if g.anytype:
